@@ -315,3 +315,52 @@ func H_file_programs() {
 	symx.Assert(len(sx.Log) == 1 && sx.Log[0].Kind == 'b' && !sx.Log[0].B, "a program on a fresh VM starts with no output recorded, whatever an earlier program printed")
 	symx.Reach("end")
 }
+
+// diagPrograms: programs whose run writes DIAGNOSTICS (warnings, fatal errors with stack traces)
+// through fmt.Fprint* to the standard streams.
+var diagPrograms = []string{
+	"<?php\n$a = [10, 20, 30];\n$x = $a[7];\n$y = $a[7];\n",
+	"<?php\n$a = [10, 20, 30];\nfor ($i = 0; $i < 3; $i++) { $x = $a[5]; }\n",
+	"<?php\n$a = [1];\n$x = $a[\"k\"];\n",
+	"<?php\nfunction f() { throw new Exception(\"boom\"); }\nf();\n",
+	"<?php\necho \"before\";\nnofn();\n",
+	"<?php\n$x = 1 % 0;\n",
+	"<?php\nclass K { function m() { return $this->nope(); } }\n$k = new K(); $k->m();\n",
+}
+
+// H_diagnostics_repeat: a program run twice (and after another program) on fresh VMs of one
+// process writes the same diagnostics each time: entry by entry the captured writes of the second
+// run equal those of the first.
+func H_diagnostics_repeat() {
+	pa, pb := symx.Choose("A", len(diagPrograms)), symx.Choose("B", len(diagPrograms))
+	defer symx.VCleanup()
+	symx.VReset()
+	root := symx.VRoot()
+	symx.VFile(root+"/a.php", diagPrograms[pa])
+	symx.VFile(root+"/b.php", diagPrograms[pb])
+	data.WriteOutput = func(string) { data.MarkUserOutput() }
+	run := func(file string) []string {
+		from := symx.PrintedCount()
+		p := parser.NewParser()
+		vm := runtime.NewVM(p)
+		// the default handler prints the diagnostic and exits the process: print it the same way, stay alive
+		vm.SetThrowControl(func(acl data.Control) { p.ShowControl(acl) })
+		vm.LoadAndRun(file)
+		var out []string
+		for k := from; k < symx.PrintedCount(); k++ {
+			out = append(out, symx.PrintedAt(k))
+		}
+		return out
+	}
+	first := run(root + "/b.php")
+	run(root + "/a.php")
+	second := run(root + "/b.php")
+	symx.Assert(len(first) == len(second), "the same program writes the same number of diagnostics when it runs again on a fresh VM")
+	if len(first) != len(second) {
+		return
+	}
+	for k := range first {
+		symx.Assert(first[k] == second[k], "the same program writes the same diagnostics when it runs again on a fresh VM")
+	}
+	symx.Reach("end")
+}
